@@ -190,3 +190,51 @@ Proof.
       (rewrite split_first_app by reflexivity); vm_compute (find _ _);
       rewrite Ha, Hx, <- Hl, Nat.eqb_refl; reflexivity.
 Qed.
+
+(* ---------- go-digest's table, read off its source, is the table of the model ---------- *)
+
+Definition hexr : list (N * N) := [(48, 57); (97, 102)].
+
+Lemma in_ranges_hexr c : in_ranges hexr c = hexlower c.
+Proof. unfold in_ranges, hexr, hexlower. cbn [existsb fst snd]. now rewrite orb_false_r. Qed.
+
+(* ^[a-f0-9]{n}$ : exactly n lower-case hex characters *)
+Lemma rep_hex n s : matches (Rep (Cls hexr) n n) s = Nat.eqb (length s) n && forallb hexlower s.
+Proof.
+  apply Bool.eq_true_iff_eq. rewrite matches_spec. unfold Rep. rewrite Nat.sub_diag, Lang_Cat.
+  rewrite andb_true_iff, Nat.eqb_eq, forallb_forall. split.
+  - intros (s1 & s2 & -> & H1 & H2). apply Lang_rep_exact_cls in H1 as [L1 A1].
+    apply Lang_rep_upto_cls in H2 as [L2 _]. destruct s2; [|simpl in L2; lia].
+    rewrite app_nil_r. split; [exact L1|]. intros c Hc. unfold all_in in A1. rewrite Forall_forall in A1.
+    rewrite <- in_ranges_hexr. now apply A1.
+  - intros [L A]. exists s, []. rewrite app_nil_r. split; [reflexivity|]. split.
+    + apply Lang_rep_exact_cls. split; [exact L|]. apply Forall_forall. intros c Hc. rewrite in_ranges_hexr. now apply A.
+    + apply Lang_rep_upto_cls. split; [simpl; lia | constructor].
+Qed.
+
+Lemma go_digest_table_is_alg_table :
+  map (fun p => (fst (fst p), snd (fst p))) go_digest_algorithms = alg_table.
+Proof. reflexivity. Qed.
+
+Lemma go_digest_regexes_ok :
+  Forall (fun p => forall enc, matches (snd p) enc = Nat.eqb (length enc) (snd (fst p)) && forallb hexlower enc)
+         go_digest_algorithms.
+Proof. repeat constructor; intro enc; apply rep_hex. Qed.
+
+Lemma find_proj (l : list (str * nat * re)) alg :
+  find (fun p => str_eqb (fst p) alg) (map (fun p => (fst (fst p), snd (fst p))) l)
+  = option_map (fun p => (fst (fst p), snd (fst p))) (find (fun p => str_eqb (fst (fst p)) alg) l).
+Proof.
+  induction l as [|[[nm n] r] l IH]; [reflexivity|]. simpl. destruct (str_eqb nm alg); [reflexivity | exact IH].
+Qed.
+
+(* Digest.Validate assembled from go-digest's source = the closed form of the theorems *)
+Theorem valid_digest_gen_eq avail s : valid_digest_gen avail s = valid_digest avail s.
+Proof.
+  unfold valid_digest_gen, valid_digest. destruct (split_first c_colon s) as [[alg enc]|]; [|reflexivity].
+  rewrite <- go_digest_table_is_alg_table, find_proj.
+  destruct (find (fun p => str_eqb (fst (fst p)) alg) go_digest_algorithms) as [[[nm n] r]|] eqn:F; [|reflexivity].
+  simpl. apply find_some in F as [Hin _].
+  pose proof go_digest_regexes_ok as G. rewrite Forall_forall in G. specialize (G _ Hin enc). simpl in G.
+  rewrite G. destruct (avail alg), (Nat.eqb (length enc) n); reflexivity.
+Qed.
